@@ -33,6 +33,37 @@ TEXT = {
         design_ref='6.19', level_note=MAPPER_NOTE),
 }
 
+LOOP_NOTE = ('Trusted: Verus/Z3/rustc; the assembler (E1-E4 and the token weave); the Driver trait contract as the model of the environment (RealDriver meeting it is assumed); '
+             'Instant/Duration as mathematical integers (axioms on AddSpec/SubSpec/PartialOrdSpec); Mapper used through its contracts (proved by the mapper unit). '
+             'Environment assumptions: fewer than 50 interruptions between device events; monotonic clock; layout_ok. No witness search for the loop: a failed obligation is reported with no-failing-input-found.')
+TEXT.update({
+    'C10': dict(
+        technique='deductive verification (Verus): loop invariants of do_remapping_loop_one_device against the contract of the Driver trait (typestate with ghost state), real loop text',
+        level_text=('Proof, unbounded over schedules: the driver is a universally quantified implementation of the Driver trait under its contract (any batching, any interleaving of time-outs, '
+                    'interruptions, tablet events, end-of-device anywhere). Invariants: sends == s0 + outs (every non-empty step output, release-all batch and timer chord written once, in order, nothing else), '
+                    'stepped == reads_live (every delivered event is stepped exactly once, in order); poll requires that no notified device is left unread, which the read loops establish by draining to Busy; '
+                    'End returns at once.'),
+        design_ref='6.10', level_note=LOOP_NOTE),
+    'C11': dict(
+        technique='deductive verification (Verus): ghost repeat request + due time carried through the loop invariant; chord shape and transience by lemma; real loop text',
+        level_text=('Proof, unbounded: the timer state always equals the mapper\'s last repeat request still in force (set by a Repeating result, cleared by Disabled, tablet events and a time-out in tablet mode; '
+                    'NoChange leaves it); the poll time-out is exactly due-time minus a clock reading of this iteration (at least 1 ms), None iff no timer; a new timer is due delay_ms after a clock reading '
+                    'taken at the firing; each tick adds exactly interval_ms to the due time (no drift); the payload of a tick equals chord(keys, held) = presses of the keys not already held in listed order, '
+                    'releases in reverse, and apply(held, chord) == Some(held) (lemma by induction); chords are the only sends besides mapper outputs (C10 invariant); the fold of everything written equals the mapper\'s record.'),
+        design_ref='6.11', level_note=LOOP_NOTE + ' "waits at most delay_ms" is proved as "time-out == due - now" and needs the monotonic clock to be read as a bound; "once per interval" is a statement about due times, not about the scheduler\'s punctuality.'),
+    'C12': dict(
+        technique='deductive verification (Verus): typestate precondition on Driver::send + loop invariant in_tablet_mode == switch state, real loop text',
+        level_text=('Proof, unbounded: send requires that the switch is off or that the previous driver call delivered the switch event (so the only batch written while it is on is the release batch directly after On); '
+                    'at On/Off release_all leaves nothing pressed and nothing held and the timer is stopped; keyboard events read while the switch is on are not stepped; later releases of keys the mapper does not consider '
+                    'held are ignored with no output (C09 clause of Mapper::step).'),
+        design_ref='6.12', level_note=LOOP_NOTE + ' "resumes as from a fresh start" is as strong as C06: nothing pressed, nothing held; equality of all later answers with a new mapper is a two-run property and not claimed.'),
+    'C20': dict(
+        technique='deductive verification (Verus): typestate `failed` on the Driver trait (every call requires !failed), real loop text',
+        level_text=('Proof, unbounded: every driver method ensures Err => failed and requires !failed, the loop invariant contains !failed, so after any failing call no driver method (in particular send) can be called; '
+                    'the function returns Err exactly when a call failed and returns that call\'s message; any call may fail, so every injection point is covered.'),
+        design_ref='6.20', level_note=LOOP_NOTE),
+})
+
 NOT_APPLICABLE = {
     'C15': 'both sides are serde / serde_json (derive(Serialize), serde_json::Value, enum_utils FromStr): no contract within reach of Verus or Kani can express or decide it without assuming the behaviour of the libraries, i.e. the property (DESIGN 6.15)',
     'C16': 'keyboard_listing.rs is str splitting/searching iterators, /proc and /sys I/O and an external glob crate; Verus does not reason about str contents and Kani does not terminate on symbolic text (DESIGN 6.16)',
